@@ -45,7 +45,7 @@ def run(ctx):
             fn = ctx.fn(fp)
             rows2 = P.table(ctx, fp, ['val'])
             got = [(x.cond_strs(), [e for e in x.effects if '=' in e and not e.startswith('let')], x.value_str()) for x in rows2]
-            want = [(['(val == 0)'], ['val = %s::MAX' % ty], 'val'), (['!(val == 0)'], [], 'val')]
+            want = [(['(0 == val)'], ['val = %s::MAX' % ty], 'val'), (['!(0 == val)'], [], 'val')]
             r.eq('%s:rows' % nm, got, want, ctx.site(fp), why='0 is promoted to the maximum, anything else is unchanged')
             mx = [n for n in H.walk(fn['hir']) if H.num_limit(n)]
             r.check('%s:width' % nm, fn['inputs'] == [ty] and fn['output'] == ty and len(mx) == 1 and mx[0].get('ty') == ty and H.num_limit(mx[0]) == ty + '::MAX', ctx.site(fp), built=(fn['inputs'], fn['output'], [m.get('ty') for m in mx]),
@@ -103,8 +103,8 @@ def run(ctx):
         # client side: Channel0Handle::new turns it into the per-frame payload limit; every ChannelHandle copies it
         rows = P.table(ctx, 'io_loop::channel_handle::Channel0Handle::new', ['handle', 'frame_max'])
         site = ctx.site('io_loop::channel_handle::Channel0Handle::new')
-        z = [x for x in rows if x.conds == [('(frame_max == 0)', True)]]
-        nz = [x for x in rows if x.conds == [('(frame_max == 0)', False)]]
+        z = [x for x in rows if x.conds == [('(0 == frame_max)', True)]]
+        nz = [x for x in rows if x.conds == [('(0 == frame_max)', False)]]
         if r.check('payload-limit:rows', len(z) == 1 and len(nz) == 1, site, built=[x.row() for x in rows]):
             ez = [e for e in z[0].effects if e.startswith('frame_max')]
             en = [e for e in nz[0].effects if e.startswith('frame_max')]
